@@ -368,9 +368,149 @@ def rule_valist(chk, prog, tier):
     r.exhaustive = True
 
 
+# ------------------------------------------------------------------ C08.g the type description has the layout of the C type
+
+def qbe_layout(text):
+    """natural layout of the aggregate types defined in `text` (QBE: every field at the next multiple of its alignment, size rounded up to the
+    alignment, explicit `align` is a lower bound) -> {name: (size, align, flattened [(offset, size, class letter)])}"""
+    import re
+    B = {'b': 1, 'h': 2, 'w': 4, 'l': 8, 's': 4, 'd': 8}
+    types = {}
+    for line in text.split('\n'):
+        m = re.match(r'type (:[\w.]+) = (?:align (\d+) )?\{ (.*)\}$', line.strip())
+        if not m: continue
+        name, al, body = m.group(1), int(m.group(2) or 1), m.group(3).strip()
+        def fields(seq):
+            off = 0; a = 1; flat = []
+            for item in [x.strip() for x in seq.split(',') if x.strip()]:
+                parts = item.split()
+                cls = parts[0]; n = int(parts[1]) if len(parts) > 1 else 1
+                if cls.startswith(':'):
+                    fs, fa, fflat = types[cls]
+                else:
+                    fs = fa = B[cls]; fflat = [(0, fs, cls)]
+                off = (off + fa - 1) // fa * fa
+                for k in range(n):
+                    flat += [(off + o, s_, c_) for o, s_, c_ in fflat]; off += fs
+                a = max(a, fa)
+            return off, a, flat
+        if body.startswith('{'):
+            alts = re.findall(r'\{([^{}]*)\}', body)
+            size = 0; a = al; flat = []
+            for alt in alts:
+                o, fa, fl = fields(alt); size = max(size, o); a = max(a, fa); flat += fl
+        else:
+            size, a, flat = fields(body); a = max(a, al)
+        size = (size + a - 1) // a * a
+        types[name] = (size, a, flat)
+    return types
+
+
+def rule_type_layout(chk, prog, tier):
+    r = chk.rule('C08.g', 'the aggregate type description handed to QBE has, under QBE\'s layout rules, the size and alignment of the C type, an integer-class field over every byte of each integer member and bit-field unit, and a floating '
+                 'field exactly where each float/double member lies (also with unnamed bit-fields, zero-width bit-fields, alignment specifiers and packed structs, whose layout QBE would not reproduce from the member list alone)',
+                 floor=400, oracle='QBE IL reference, "Aggregate Types"; C layout as built by decl.c:addmember (decided against the psABI in C06.a)')
+    import itertools, random, par
+    from props import c06
+    fn = prog.require_func('emittype', 'qbe.c')
+    M = out_models(prog)
+    ALPHA = [('char', None, True, 0), ('short', None, True, 0), ('int', None, True, 0), ('long', None, True, 0), ('float', None, True, 0), ('double', None, True, 0), ('S12', None, True, 0), ('S16', None, False, 0),
+             ('A3', None, True, 0), ('F2', None, True, 0), ('int', 3, True, 0), ('int', 31, True, 0), ('char', 7, True, 0), ('long', 33, True, 0), ('short', 9, True, 0),
+             ('int', 0, False, 0), ('long', 0, False, 0), ('int', 5, False, 0), ('long', 40, False, 0), ('short', 16, False, 0), ('char', None, True, 8), ('int', None, True, 16)]
+    SIZES = {'char': 1, 'short': 2, 'int': 4, 'long': 8, 'float': 4, 'double': 8, 'S12': 12, 'S16': 16, 'A3': 3, 'F2': 8}
+    def mtype(w, ty):
+        it = w.it
+        def rec(size, align, mts):
+            t = w.mkstruct(size=size, align=align); t.obj.f[('incomplete',)] = 0; t.obj.f[('flexible',)] = 0
+            nxt = None
+            for k_, (off, mt_) in reversed(list(enumerate(mts))):
+                nxt = mkmember('x', mt_, off, nxt); nm_ = 'in%d_%d' % (size, k_)
+                nxt.obj.f[('name',)] = Ptr(it.mkstr(list(nm_.encode()), nm_), (0,))
+            t.obj.f[('u', 'structunion', 'members')] = nxt
+            return t
+        if ty == 'S12': return rec(12, 4, [(0, w.t('int')), (4, w.t('int')), (8, w.t('int'))])
+        if ty == 'S16': return rec(16, 8, [(0, w.t('long')), (8, w.t('double'))])
+        if ty == 'A3': return it.call('mkarraytype', [w.t('char'), 0, 3])
+        if ty == 'F2': return it.call('mkarraytype', [w.t('float'), 0, 2])
+        return w.t(ty)
+    def after(it, w, t):
+        it.models.update(M)
+        it.user['text'] = []
+        it.call(fn, [t])
+        return ''.join(x or '' for x in it.user['text'])
+    seqs = [tuple(s) for n in (1, 2) for s in itertools.product(ALPHA, repeat=n)]
+    all3 = [tuple(s) for s in itertools.product(ALPHA, repeat=3)]
+    seqs += all3 if tier == 'thorough' else random.Random(8).sample(all3, 500)
+    idx = list(enumerate(seqs))
+    jobs = []
+    for kind, pack in (('struct', False), ('struct', True), ('union', False)):
+        sel = idx if (kind, pack) == ('struct', False) else idx[:len(ALPHA) + len(ALPHA) ** 2]
+        for c_ in range(32):
+            part = sel[c_::32]
+            if part: jobs.append((kind, pack, part))
+    def work(job):
+        kind, pack, part = job
+        return kind, pack, c06.run_layout(prog, part, kind, pack=pack, mtype_fn=mtype, after=after)
+    nbad = {}; first = {}; nok = 0
+    for kind, pack, res in par.pmap(work, jobs):
+        for si, (outcome, val) in res.items():
+            seq = seqs[si]
+            if outcome != 'return':
+                if outcome == 'terminal:error': continue      # sequences the language forbids
+                raise AnalysisBroken('tagspec/emittype %s: %s %s' % (seq, outcome, str(val)[:200]))
+            size, align, mem, text = val
+            tys = qbe_layout(text)
+            last = [l for l in text.split('\n') if l.startswith('type ')]
+            probs = []
+            if not last: probs.append('no type definition printed')
+            else:
+                name = last[-1].split()[1]
+                qs, qa, flat = tys[name]
+                if (qs, qa) != (size, align): probs.append('QBE lays it out with size %d alignment %d, the C type has size %d alignment %d' % (qs, qa, size, align))
+                # member by member
+                it_mem = iter(mem)
+                for ty, wd, named, al in seq:
+                    if wd is not None and not named: continue          # unnamed bit-field: not a member
+                    isnamed, bitpos, width = next(it_mem)
+                    lo, hi = bitpos // 8, (bitpos + width + 7) // 8
+                    if pack:
+                        # QBE has no way to say "a float field at reduced alignment": a packed struct is described by bytes (right size, alignment and extent);
+                        # the register class of floating members of packed structs is outside what the description can carry, so only coverage is judged
+                        for b in range(lo, hi):
+                            if not any(o <= b < o + s_ for o, s_, c_ in flat): probs.append('byte %d of member %s (offset %d) is not covered by any field' % (b, ty, lo)); break
+                        continue
+                    if ty in ('float', 'double') and wd is None:
+                        if not any(o == lo and c_ == ('s' if ty == 'float' else 'd') for o, s_, c_ in flat): probs.append('%s member at offset %d has no %s field there' % (ty, lo, 's' if ty == 'float' else 'd'))
+                        continue
+                    if kind == 'union':
+                        cover = [(o, s_, c_) for o, s_, c_ in flat if o < hi and o + s_ > lo]
+                        if not cover: probs.append('member %s at bytes %d..%d is not described' % (ty, lo, hi))
+                        continue
+                    want_float = {'S16': {8: 'd'}, 'F2': {0: 's', 4: 's'}}.get(ty, {})
+                    for b in range(lo, hi):
+                        fl = [(o, s_, c_) for o, s_, c_ in flat if o <= b < o + s_]
+                        rel = b - lo
+                        wf = next((c_ for o_, c_ in want_float.items() if o_ <= rel < o_ + (4 if c_ == 's' else 8)), None)
+                        if not fl: probs.append('byte %d of member %s (offset %d) is not covered by any field' % (b, ty, lo)); break
+                        if wf is None and any(c_ in 'sd' for o, s_, c_ in fl): probs.append('byte %d of integer member %s lies in a floating field' % (b, ty)); break
+                        if wf is not None and not any(c_ == wf for o, s_, c_ in fl): probs.append('byte %d of member %s should lie in a %s field' % (b, ty, wf)); break
+            key = (kind, pack)
+            if probs:
+                nbad[key] = nbad.get(key, 0) + 1
+                first.setdefault(key, '%s%s { %s } described as `%s`: %s' % ('packed ' if pack else '', kind, c06.fmt(seq), (last[-1] if last else text)[:120], probs[0]))
+            else:
+                nok += 1
+    r.n += nok; r.ok += nok
+    for key, n in nbad.items():
+        r.violation('type-layout:%s%s' % ('packed ' if key[1] else '', key[0]), 'qbe.c:emittype', '%d member sequences get a description whose layout differs from the C type, e.g. %s' % (n, first[key]))
+    r.samples.append('%d member sequences over an alphabet of %d member forms; plain and packed structs, unions' % (len(seqs), len(ALPHA)))
+    r.exhaustive = (tier == 'thorough')
+
+
 def run(chk, tier):
     prog = facts.programs()['cproc-qbe']
     chk.guard('C08.t', lambda: rule_emittype(chk, prog, tier))
+    chk.guard('C08.g', lambda: rule_type_layout(chk, prog, tier))
     chk.guard('C08.f', lambda: rule_type_before_use(chk, prog, tier))
     chk.guard('C08.c', lambda: rule_call_args(chk, prog, tier))
     chk.guard('C08.d', lambda: rule_adjust(chk, prog, tier))
